@@ -37,12 +37,12 @@ type HistCase struct {
 
 var histOps = []string{"reroot", "rerootfirst", "unroot", "midpoint", "outgroup", "prune", "prunekeep", "collapselen", "collapsesup", "collapsedepth",
 	"removeedges", "collapseclade", "resolve", "rotate", "sort", "removesingle", "clone", "subtree", "nniapply", "nniapplyundo", "insertidentical", "graft", "merge",
-	"rename", "renameauto", "renameregexp", "shuffle", "reinit", "clearlen", "clearsup", "clearcomments", "scale", "round", "addcomment", "editcomment", "resolvenamed", "nnihold", "nniundoheld", "insertidentical1", "grafttip"}
+	"rename", "renameauto", "renameregexp", "shuffle", "reinit", "clearlen", "clearsup", "clearcomments", "scale", "round", "addcomment", "editcomment", "resolvenamed", "nnihold", "nniundoheld", "nniapplyreorderundo", "insertidentical1", "grafttip"}
 
 // structure-changing operations (for the non-triviality rule)
 var structOps = map[string]bool{"reroot": true, "rerootfirst": true, "unroot": true, "midpoint": true, "outgroup": true, "prune": true, "prunekeep": true,
 	"collapselen": true, "collapsesup": true, "collapsedepth": true, "removeedges": true, "collapseclade": true, "resolve": true, "rotate": true, "sort": true,
-	"removesingle": true, "subtree": true, "resolvenamed": true, "nniapply": true, "insertidentical": true, "insertidentical1": true, "graft": true, "grafttip": true, "merge": true, "shuffle": true}
+	"removesingle": true, "subtree": true, "resolvenamed": true, "nniapply": true, "nniapplyreorderundo": true, "insertidentical": true, "insertidentical1": true, "graft": true, "grafttip": true, "merge": true, "shuffle": true}
 
 func genTreeText(rt *rapid.T, prefix string, minTips, maxTips int, comments bool) string {
 	n := drawTaxa(rt, minTips, maxTips)
@@ -389,6 +389,25 @@ func applyOp(st *histState, op HOp) (desc string, err error) {
 		}
 		st.held = rs[i]
 		return fmt.Sprintf("NNI#%d.Apply (rearrangement kept for a later Undo)", i), nil
+	case "nniapplyreorderundo":
+		// Apply, re-order the children (the nodes and branches stay where they are), Undo on the same object
+		var rs []tree.Rearrangement
+		(&tree.NNIRearranger{}).Rearrange(t, func(re tree.Rearrangement) bool { rs = append(rs, re); return true })
+		if len(rs) == 0 {
+			return opSkip, nil
+		}
+		i := op.A % len(rs)
+		if e := rs[i].Apply(); e != nil {
+			return fmt.Sprintf("NNI#%d.Apply", i), e
+		}
+		how := "SortNeighborsByTips"
+		if op.B%2 == 0 {
+			t.SortNeighborsByTips()
+		} else {
+			how = "RotateInternalNodes"
+			t.RotateInternalNodes()
+		}
+		return fmt.Sprintf("NNI#%d.Apply; %s; Undo", i, how), rs[i].Undo()
 	case "nniundoheld":
 		if st.held == nil {
 			return opSkip, nil
